@@ -91,7 +91,7 @@ package leveldb
 // comparer.go
 
 //@ func (*iComparer).Separator
-//@   props C15 C13
+//@   props C15 C13 C01
 //@   safety on
 //@   requires len(a) >= 8 && len(b) >= 8 && len(dst) == 0
 //@   requires base(dst) != base(a) && base(dst) != base(b)
@@ -100,7 +100,7 @@ package leveldb
 //@   ensures [sep-shape] isnil(result) || (len(result) >= 8 && inum(result) == keyMaxNum)
 
 //@ func (*iComparer).Successor
-//@   props C15 C13
+//@   props C15 C13 C01
 //@   safety on
 //@   requires len(b) >= 8 && len(dst) == 0
 //@   requires base(dst) != base(b)
@@ -477,9 +477,9 @@ package leveldb
 
 // O1: a table file is complete (index, footer) and synced before a tFile value for it exists.
 //@ func (*tWriter).finish
-//@   props C04
+//@   props C04 C11 C08
 //@   at before call storage.Syncer.Sync#1
-//@     assert [C04:table-closed-before-sync] calls("(*Writer).Close") > old(calls("(*Writer).Close"))
+//@     assert [C04,C08,C11:table-closed-before-sync] calls("(*Writer).Close") > old(calls("(*Writer).Close"))
 //@   ensures [C04:table-synced-before-use] err == nil ==> (old(w.t.noSync) || calls("storage.Syncer.Sync") > old(calls("storage.Syncer.Sync")))
 //@   ensures [C04:table-closed] err == nil ==> calls("(*Writer).Close") > old(calls("(*Writer).Close"))
 //@   ensures [C04:file-on-success] err == nil ==> f != nil
